@@ -369,3 +369,14 @@ pub fn link_partition(root: &str) -> Vec<Vec<String>> {
     v.sort();
     v
 }
+
+/// raw getdents64 into a buffer of `cap` bytes: number of bytes the kernel returned
+pub fn getdents_len(fd: RawFd, cap: usize) -> R<usize> {
+    let mut buf = vec![0u8; cap];
+    let r = unsafe { libc::syscall(libc::SYS_getdents64, fd, buf.as_mut_ptr(), cap) };
+    if r < 0 {
+        Err(errno())
+    } else {
+        Ok(r as usize)
+    }
+}
